@@ -738,11 +738,11 @@ func c16f4Repairs(r *an.Run) {
 		})
 
 	r.Obl("final-hop-is-dereferenced-only-where-it-exists", "GUARD",
-		"in the non-test code of payments/db every use of the result of route.Route.FinalHop() is either a comparison with nil or a field selection; a field selection on x.FinalHop() is reachable only through the `x.FinalHop() != nil` edge of a test on the same x (canonical form), except where x is the route of an element of the payment's own attempt list (payment.InFlightHTLCs() / m.HTLCs: stored attempts were admitted by verifyAttempt, i.e. through that test); verifyAttempt returns nil only below attempt.Route.FinalHop() != nil",
-		"FinalHop() is nil for a route without hops: RegisterAttempt panicked on it (inside the bbolt transaction on kv) instead of refusing the attempt, and a refused attempt must not be stored on one backend and crash the other", 10,
+		"in the non-test code of payments/db every use of the result of route.Route.FinalHop() is either a comparison with nil or a field selection; a field selection on x.FinalHop() is reachable only through the `x.FinalHop() != nil` edge of a test on the same x (canonical form) — also where x is the route of a stored attempt (an element of payment.InFlightHTLCs() / m.HTLCs): a stored attempt can lack hops (written by an older version, or loaded without them); verifyAttempt returns nil only below attempt.Route.FinalHop() != nil, and once a stored attempt it compares against is found without final hop neither the next iteration nor `return nil` is reachable (the attempt that cannot be compared is an error, it is not skipped)",
+		"FinalHop() is nil for a route without hops: RegisterAttempt panicked on it (inside the bbolt transaction on kv) instead of refusing the attempt, and a refused attempt must not be stored on one backend and crash the other; a stored attempt that is skipped instead lets a shard with other MPP / AMP / blinded records join it", 17,
 		func(o *an.Obl) {
 			stored := regexp.MustCompile(`^\$elem\(\$(p\d|recv)\.(InFlightHTLCs\(\)|HTLCs)\)\.Route$`)
-			n := 0
+			n, nStored := 0, 0
 			for _, f := range p.Funcs(false, "payments/db") {
 				if f.Body == nil {
 					continue
@@ -777,8 +777,8 @@ func c16f4Repairs(r *an.Run) {
 					case *ast.SelectorExpr:
 						if ast.Unparen(x.X) == ast.Expr(call) {
 							if stored.MatchString(base) {
-								o.Site("%s: %s on a stored attempt (%s), admitted through verifyAttempt", f.ID, an.Text(x), base)
-								continue
+								nStored++
+								o.Site("%s: %s on a stored attempt (%s)", f.ID, an.Text(x), base)
 							}
 							guarded(o, f, s, an.IsNil(an.CallNamed("FinalHop", canonTerm(`^`+regexp.QuoteMeta(base)+`$`)), false, base+".FinalHop() != nil"))
 							continue
@@ -790,12 +790,23 @@ func c16f4Repairs(r *an.Run) {
 			if n == 0 {
 				o.FailAt(pd+"#final-hop-uses", "", "no use of Route.FinalHop() found in payments/db")
 			}
+			if nStored == 0 {
+				o.FailAt(pd+"#final-hop-of-stored-attempts", "", "no field selection on the final hop of a stored attempt found in payments/db: verifyAttempt no longer compares the new attempt with the attempts in flight, re-anchor")
+			}
 			va := p.Func(pd + "verifyAttempt")
+			var okRets []an.Site
 			for _, s := range va.Returns() {
 				if rs, ok := s.Node.(*ast.ReturnStmt); ok && len(rs.Results) == 1 && an.IsNilIdent(va.Info(), rs.Results[0]) {
+					okRets = append(okRets, s)
 					guarded(o, va, s, an.IsNil(an.CallNamed("FinalHop", canonTerm(`^\$p1\.Route$`)), false, "attempt.Route.FinalHop() != nil"))
 				}
 			}
+			// a stored attempt without final hop ends the admission
+			forbidden := append([]an.Site{}, okRets...)
+			for _, hd := range c15RangeHeads(va, `^\$p0\.InFlightHTLCs\(\)$`) {
+				forbidden = append(forbidden, an.Site{Fn: va, V: hd, Node: hd.Node})
+			}
+			c15FactStops(o, va, an.IsNil(an.CallNamed("FinalHop", canonTerm(`^\$elem\(\$p0\.InFlightHTLCs\(\)\)\.Route$`)), true, "h.Route.FinalHop() == nil for an attempt in flight"), forbidden, "further admission")
 		})
 
 	r.Obl("both-stores-list-attempts-by-attempt-id", "MIRROR",
